@@ -252,13 +252,13 @@ async def one_case(case: Dict[str, Any]) -> List[Tuple[str, str]]:
     if cfg:
         s_to, c_to, s_dl, c_dl, s_md, c_md = cfg
         if s_to:
-            stub_kw["timeout"] = 1000.0
+            stub_kw["timeout"] = 10000.0
         if c_to:
-            call_kw["timeout"] = 10.0
+            call_kw["timeout"] = 100.0
         if s_dl:
-            stub_kw["deadline"] = Deadline.from_timeout(500.0)
+            stub_kw["deadline"] = Deadline.from_timeout(5000.0)
         if c_dl:
-            call_kw["deadline"] = Deadline.from_timeout(5.0)
+            call_kw["deadline"] = Deadline.from_timeout(50.0)
         if s_md:
             stub_kw["metadata"] = {"x-level": "stub", "x-stub": "1"}
         if c_md:
@@ -279,12 +279,12 @@ async def one_case(case: Dict[str, Any]) -> List[Tuple[str, str]]:
             pass
         stub = main.MainStub(channel, **stub_kw)
         try:
-            got = await asyncio.wait_for(call(stub, py, cstream, sstream, reqs, case["as_async"], **call_kw), 4)
+            got = await asyncio.wait_for(call(stub, py, cstream, sstream, reqs, case["as_async"], **call_kw), 40)
             raised = None
         except grpclib.GRPCError as e:
             got, raised = None, e
         except asyncio.TimeoutError:
-            return [("hang", "call did not complete within 4 s")]
+            return [("hang", "call did not complete within 40 s")]
         except Exception as e:
             return [("client-raised", f"{type(e).__name__}: {e}"[:200])]
     want_reqs = reqs if cstream else reqs[:1]
@@ -343,13 +343,13 @@ async def precedence_case(case: Dict[str, Any]) -> List[Tuple[str, str]]:
     stub_kw: Dict[str, Any] = {}
     call_kw: Dict[str, Any] = {}
     if s_to:
-        stub_kw["timeout"] = 1000.0
+        stub_kw["timeout"] = 10000.0
     if c_to:
-        call_kw["timeout"] = 10.0
+        call_kw["timeout"] = 100.0
     if s_dl:
-        stub_kw["deadline"] = Deadline.from_timeout(500.0)
+        stub_kw["deadline"] = Deadline.from_timeout(5000.0)
     if c_dl:
-        call_kw["deadline"] = Deadline.from_timeout(5.0)
+        call_kw["deadline"] = Deadline.from_timeout(50.0)
     if s_md:
         stub_kw["metadata"] = {"x-level": "stub", "x-stub": "1"}
     if c_md:
@@ -363,15 +363,15 @@ async def precedence_case(case: Dict[str, Any]) -> List[Tuple[str, str]]:
         stub = main.MainStub(channel, **stub_kw)
         reqs = req_alphabet(T, rk)[:1] * 2
         try:
-            await asyncio.wait_for(call(stub, py, cstream, sstream, reqs, False, **call_kw), 4)
+            await asyncio.wait_for(call(stub, py, cstream, sstream, reqs, False, **call_kw), 40)
         except Exception as e:
             return [("precedence-call-failed", f"{type(e).__name__}: {e}"[:200])]
     out: List[Tuple[str, str]] = []
     if len(seen) != 1:
         return [("precedence-observe", f"{len(seen)} RecvRequest events")]
     md, remaining = seen[0]
-    eff_to = 10.0 if c_to else (1000.0 if s_to else None)
-    eff_dl = 5.0 if c_dl else (500.0 if s_dl else None)
+    eff_to = 100.0 if c_to else (10000.0 if s_to else None)
+    eff_dl = 50.0 if c_dl else (5000.0 if s_dl else None)
     want_md = {"x-level": "call", "x-call": "1"} if c_md else ({"x-level": "stub", "x-stub": "1"} if s_md else {})
     got_md = {k: v for k, v in md.items() if k.startswith("x-")}
     if got_md != want_md:
@@ -382,7 +382,7 @@ async def precedence_case(case: Dict[str, Any]) -> List[Tuple[str, str]]:
             out.append(("deadline-precedence", f"server saw a deadline ({remaining:.1f}s) although none was set"))
     else:
         want_rem = min(cands)
-        if remaining is None or abs(remaining - want_rem) > max(2.0, want_rem * 0.01):
+        if remaining is None or abs(remaining - want_rem) > max(20.0, want_rem * 0.01):
             out.append(("deadline-precedence",
                         f"server saw {remaining!r}s remaining, expected about {want_rem}s (cfg={case['cfg']})"))
     return out
@@ -410,7 +410,7 @@ async def root_case(case: Dict[str, Any]) -> List[Tuple[str, str]]:
             stub = root.RootSvcStub(channel)
             req = root.RootReq(a=case["a"])
             if case["method"] == "Ping":
-                got = [await asyncio.wait_for(stub.ping(req), 4)]
+                got = [await asyncio.wait_for(stub.ping(req), 40)]
                 want = [root.RootResp(b=case["a"] + 1)]
             else:
                 got = [x async for x in stub.pings(req)]
